@@ -88,6 +88,10 @@ namespace rkcommon {
     size_t pos = filename.find_last_of('.');
     if (pos == std::string::npos)
       return "";
+    // a dot inside a directory name does not start an extension
+    size_t sep = filename.find_last_of(path_sep);
+    if (sep != std::string::npos && pos < sep)
+      return "";
     return filename.substr(pos + 1);
   }
 
@@ -96,6 +100,10 @@ namespace rkcommon {
   {
     size_t pos = filename.find_last_of('.');
     if (pos == std::string::npos)
+      return filename;
+    // a dot inside a directory name does not start an extension
+    size_t sep = filename.find_last_of(path_sep);
+    if (sep != std::string::npos && pos < sep)
       return filename;
     return filename.substr(0, pos);
   }
